@@ -220,6 +220,9 @@ func (e *Env) field(base Val, name string) Val {
 			return e.x.loadField(e.st, n, base.S, i)
 		}
 		if g := e.x.ghostField(n, name); g != nil {
+			if g.Local && g.Pkg != funcPkg(e.x.root) {
+				efail("ghost field %s.%s is local to package %s", g.Owner, g.Name, g.Pkg)
+			}
 			key, elem, isMap := e.x.ghostKey(n, g)
 			t := sel(e.x.fieldArr(e.st, key), base.S)
 			if isMap {
